@@ -514,7 +514,70 @@ fn world_part(cfg: &RunCfg, out: &Out) {
     }
 }
 
+/// the part of the workload that needs no store (what Miri can interpret): direct calls of `sample_blocks` on generated
+/// start / last numbers and total difficulties, judged by the same clauses (order, uniqueness, range, count)
+fn pure_generator(cfg: &RunCfg, out: &Out) {
+    for k in 0..cfg.budget {
+        if out.time_up() {
+            break;
+        }
+        let mut rng = Rng::new(cfg.scenario_seed(k) ^ 0x5a17);
+        let last_n = *rng.pick(&[1u64, 2, 3, 5, 10, 25, 100, 1000]);
+        let start_number = pick_number(&mut rng);
+        let start_td = pick_td(&mut rng);
+        let gap = match rng.below(4) {
+            0 => last_n + 1,
+            1 => rng.range(last_n + 1, 2 * last_n + 2),
+            2 => rng.range(2 * last_n, 200 * last_n + 10),
+            _ => rng.range(last_n + 1, 1 << 40),
+        };
+        let last_number = match start_number.checked_add(gap) {
+            Some(n) => n,
+            None => continue,
+        };
+        let td_gap = match rng.below(4) {
+            0 => U256::from(gap),
+            1 => U256::from(gap) + U256::from(rng.next_u64()),
+            2 => U256::one() << (rng.range(64, 240) as usize),
+            _ => U256::from(gap) * rng.range(1, 1000),
+        };
+        if td_gap < U256::from(gap) || start_td.is_zero() || start_td == U256::max_value() {
+            continue;
+        }
+        let last_td = match start_td.checked_add(&td_gap) {
+            Some(t) => t,
+            None => continue,
+        };
+        let desc = json!({"start_number": start_number, "last_number": last_number, "last_n": last_n, "start_td": format!("{:#x}", start_td), "last_td": format!("{:#x}", last_td)});
+        let r = guarded(|| sample_blocks(start_number, &start_td, last_number, &last_td, last_n));
+        out.eval(1);
+        out.cell(&format!("pure|{}|{}|{}", gap_class(gap, last_n), last_n, mag_class(&last_td)));
+        match r {
+            Ok((boundary, diffs)) => {
+                let req = packed::GetLastStateProof::new_builder()
+                    .start_number(start_number.pack())
+                    .last_n_blocks(last_n.pack())
+                    .difficulty_boundary(boundary.pack())
+                    .difficulties(diffs.iter().map(|d| d.pack()).pack())
+                    .build();
+                let truth = Truth { start_number, start_td: start_td.clone(), orig_start_td: None, last_number, last_td: last_td.clone() };
+                for (rule, tag, detail) in judge_request(&req, &truth, last_n) {
+                    out.violation(&rule, &format!("C15|{}", tag), json!({"input": desc, "request": detail, "direct": true}), k);
+                }
+                out.max("max_samples_requested", diffs.len() as u64);
+            }
+            Err(Unwound::Panic(p)) => out.violation("C15.R1", &p.signature("C15", "sample_blocks"), json!({"input": desc, "panic": p.message}), k),
+            Err(_) => {}
+        }
+    }
+}
+
 pub fn run(cfg: &RunCfg, out: &Out) {
+    if cfg.tier == "miri" {
+        // Miri cannot cross the RocksDB FFI: only the store-free part runs under it
+        pure_generator(cfg, out);
+        return;
+    }
     generator(cfg, out);
     world_part(cfg, out);
 }
